@@ -4,9 +4,13 @@
     corr:*  the transcription Metadata/Signers.v answers differently from the implementation;
     prop:*  the DOCUMENTED rule (Metadata/SignersSpec.v: coverage by signer or grant, existence of
             an injective role assignment found by brute force, PROVENANCE-role rule, smart-contract
-            positions) evaluated directly on the implementation's answer. *)
+            positions) evaluated directly on the implementation's answer.
+
+    Count-limited authorizations are outside Metadata/Signers.v; the [CCount] cases record what the
+    real keeper does with them (k identical messages in a row) and compare it with the counted
+    transcription of findAuthzGrantee (Metadata/AuthzCount.v), not with the main model. *)
 From Coq Require Import ZArith NArith List String Bool.
-From PV Require Export Metadata.Signers Metadata.SignersSpec Corr.CorrBase.
+From PV Require Export Metadata.Signers Metadata.SignersSpec Metadata.AuthzCount Corr.CorrBase.
 Import ListNotations.
 Open Scope string_scope.
 Open Scope list_scope.
@@ -22,7 +26,11 @@ Inductive case :=
   (* keeper.ValidateSignersWithoutParties called directly *)
 | CWithout (m : Z) (wasm : list Z) (raw : list (Z * Z * Z)) (required signers : list Z) (obs : bool)
   (* a real message through the message router on state set up through the keeper *)
-| COuter (m : Z) (wasm : list Z) (raw : list (Z * Z * Z)) (op : outer) (signers : list Z) (obs : bool).
+| COuter (m : Z) (wasm : list Z) (raw : list (Z * Z * Z)) (op : outer) (signers : list Z) (obs : bool)
+  (* count-limited authorizations: [st] = (granter, grantee, kind, uses; 0 = generic); the only
+     requirement is the signature of [granter]; the same message of kind [m] signed by [signers]
+     is sent [length obs] times in a row (real keeper call or real message), [obs] = accepted? *)
+| CCount (m : Z) (st : list (Z * Z * Z * Z)) (granter : Z) (signers : list Z) (obs : list bool).
 
 Definition implies (a b : bool) : bool := negb a || b.
 
@@ -31,6 +39,33 @@ Definition implies (a b : bool) : bool := negb a || b.
     contract through that merely holds an authz grant from a party). *)
 Definition literal_tag : string :=
   "prop:smart contract that is not a party accepted as only/last signer or without grants from the signers after it (it merely holds a party's grant)".
+
+Definition mk_store (l : list (Z * Z * Z * Z)) : cstore :=
+  map (fun g => {| cg_granter := fst (fst (fst g)); cg_grantee := snd (fst (fst g));
+                   cg_kind := snd (fst g);
+                   cg_left := if Z.eqb (snd g) 0 then None else Some (snd g) |}) l.
+
+Fixpoint bools_eqb (a b : list bool) : bool :=
+  match a, b with
+  | [], [] => true
+  | x :: a', y :: b' => Bool.eqb x y && bools_eqb a' b'
+  | _, _ => false
+  end.
+
+(** once rejected, always rejected (uses are only ever consumed) *)
+Fixpoint no_true_after_false (l : list bool) : bool :=
+  match l with
+  | [] => true
+  | true :: t => no_true_after_false t
+  | false :: t => forallb negb t
+  end.
+
+(** the uses [granter] has given to the signers for a message of kind [m]; [None]: unlimited *)
+Definition uses_available (m : Z) (st : list (Z * Z * Z * Z)) (granter : Z) (signers : list Z) : option Z :=
+  let app := filter (fun g => Z.eqb (fst (fst (fst g))) granter && mem (snd (fst (fst g))) signers &&
+                              mem (snd (fst g)) (authz_urls m)) st in
+  if existsb (fun g => Z.eqb (snd g) 0) app then None
+  else Some (fold_left (fun acc g => acc + snd g) app 0).
 
 Definition check (c : case) : list string :=
   match c with
@@ -78,6 +113,21 @@ Definition check (c : case) : list string :=
        else
          tag (negb (doc_direct e op signers))
              "prop:message rejected although every required party signed directly and the roles are present")
+  | CCount m st granter signers obs =>
+      tag (bools_eqb (messages (List.length obs) (mk_store st) granter signers m) obs)
+          "corr:count-limited authorizations: accept/reject sequence differs from the counted transcription of findAuthzGrantee" ++
+      (if mem granter signers then []
+       else
+         tag (match uses_available m st granter signers with
+              | None => true
+              | Some n => Z.leb (Z.of_nat (List.length (filter (fun b => b) obs))) n
+              end)
+             "prop:count-limited authorizations stood in for more messages than the uses granted" ++
+         tag (match uses_available m st granter signers with
+              | None => true
+              | Some _ => no_true_after_false obs
+              end)
+             "prop:message accepted again after the count-limited authorizations were used up")
   end.
 
 Definition check_all := check_list check.
